@@ -10,15 +10,21 @@ Decides (from the syntax trees, nothing is run):
       every resource class).  Reported: swapped / dropped / constant fields, a defaulted parameter that the reader no longer passes, a
       scalar written through a rounding function, and the LOSSY COLLECTION shape - a collection attribute read by the billing path of
       which to_dict writes only a summary (one element, next(iter()), min / max ...: many-to-one) from which from_dict rebuilds the
-      whole collection (one-to-many).
+      whole collection (one-to-many).  A HAND-WRITTEN MEMO inside from_dict (a value kept in module- / class-level state under a key - G.get(k) / G[k] /
+      k in G / try-except KeyError / setdefault - and handed to later dictionaries with the same key) makes the reloaded object depend on an EARLIER
+      dictionary: the key must determine every serialised field the cached value is built from (identity-like key parts cover a field, len / min / [0]
+      ... do not); then the read is replaced by the stored value and the round trip is judged as usual.
   R2  dispatcher exhaustiveness: `<cloud>_resource_from_dict` maps every class TYPE of the module (TYPEs pairwise distinct; TYPE
       attributes or literal tags) to that class's from_dict, and every resource class an instance config is created with is covered;
       a memoising dispatcher must key on every serialised field
   R3  superadditivity typing: every `to_quantified_resource` quantity - obtained by abstract evaluation through the MRO, super(),
       helpers, locals and in-place updates - as a function of (cpu_in_mcpu, memory_in_bytes, worker_fraction_in_1024ths) is built only
       from parameters, non-negative-constant multiples, sums and floor division by positive constants; worker_fraction_in_1024ths is
-      `1024*cpu // (cores*1000)`, the parameters are passed to the like-named keyword, and what InstanceConfig.quantified_resources
-      does to each dict before appending it stays in the fragment.  Such functions are monotone with sum f(x_i) <= f(sum x_i), which is
+      `1024*cpu // (cores*1000)` - taken from the ARGUMENT passed for worker_fraction_in_1024ths with locals expanded and pure helpers (module functions
+      of this or an imported repository module, methods, static methods) seen through, typed in the same fragment (a ceiling idiom (a + b - 1) // b,
+      -(-a // b), math.ceil, round_up_division or a round-half-up is a violation whatever assertion on the core count is left) and compared as a
+      quotient of monomials with 1024 x cpu / (1000 x self.cores) -, the other parameters reach the like-named keyword (through locals), and what
+      InstanceConfig.quantified_resources does to each dict before appending it (loop form or comprehension form) stays in the fragment.  Such functions are monotone with sum f(x_i) <= f(sum x_i), which is
       the packing clause.  ceil / round / max / min / additive constants / subtraction are violations.
   R4  purity (necessary for "whole worker billed exactly" and for "reloaded config bills identically": the whole worker and a job are
       billed by the SAME function, a reloaded config starts with nothing cached): every dict value has a provenance - fresh / memo
@@ -1659,12 +1665,52 @@ def _check_superadditive(ctx: Ctx, quants: List[Quantified]) -> None:
                   f'(cpu = cores*1000) is not 1024/1024ths, so static per-worker resources are over- or under-billed', m.path, wline, detail={'mode': mode, 'helpers': helpers})
     # every resource of the config is billed exactly once: loop over self.resources, append when not None
     loops = [n for n in pf.walk_shallow(fn) if isinstance(n, ast.For)]
+    if not loops and _comprehension_form(ctx, m, fn, c, quants):
+        _check_whole_worker_sites(ctx, m)
+        return
     ctx.need(len(loops) == 1 and pf.nsrc(loops[0].iter) == 'self.resources', 'InstanceConfig.quantified_resources: loop over self.resources not found')
     appends = [x for x in ast.walk(loops[0]) if isinstance(x, ast.Call) and isinstance(x.func, ast.Attribute) and x.func.attr in ('append', 'extend')]
     ctx.check(len(appends) == 1, 'R3', f'{F_IC}::InstanceConfig.quantified_resources::one entry per resource',
               f'{len(appends)} append/extend calls per resource in the loop: a resource is billed more than once (or never)', m.path, loops[0].lineno)
     _check_caller_loop(ctx, m, fn, loops[0], c, quants)
     _check_whole_worker_sites(ctx, m)
+
+
+def _comprehension_form(ctx: Ctx, m: pf.Module, fn: pf.FuncDef, call: ast.Call, quants: List[Quantified]) -> bool:
+    """quantified_resources written with comprehensions:  qs = [r.to_quantified_resource(...) for r in self.resources]  and  return [q for q in qs if q is not None]
+    (or the filter in the same comprehension through a walrus-free two-step).  Every resource is quantified once, the dicts are passed on unchanged.  Returns False if the
+    function is not of this form (the caller then looks for the loop form and declines if that is absent too)."""
+    comps = [n for n in ast.walk(fn) if isinstance(n, (ast.ListComp, ast.GeneratorExp)) and n.elt is call]
+    if len(comps) != 1:
+        return False
+    comp = comps[0]
+    if len(comp.generators) != 1 or comp.generators[0].ifs or pf.nsrc(comp.generators[0].iter) != 'self.resources' or comp.generators[0].is_async:
+        return False
+    rets = [r for r in pf.walk_shallow(fn) if isinstance(r, ast.Return)]
+    if len(rets) != 1 or rets[0].value is None:
+        return False
+    rv = cf.expand(fn, rets[0].value)
+    # the returned value: the comprehension itself, list(...) of it, or a filter `[q for q in <it> if q is not None]` that keeps every dict
+    def strip(e: ast.AST) -> Optional[ast.AST]:
+        if pf.nsrc(e) in (pf.nsrc(comp), pf.nsrc(cf.expand(fn, comp))):
+            return e
+        if isinstance(e, ast.Call) and pf.dotted(e.func) == 'list' and len(e.args) == 1 and not e.keywords:
+            return strip(e.args[0])
+        if isinstance(e, ast.ListComp) and len(e.generators) == 1 and isinstance(e.generators[0].target, ast.Name) and pf.nsrc(e.elt) == e.generators[0].target.id:
+            v = e.generators[0].target.id
+            tests = [pf.nsrc(t) for t in e.generators[0].ifs]
+            if all(t in (f'{v} is not None', f'{v} != None', v) for t in tests):
+                return strip(e.generators[0].iter)
+        return None
+    if strip(rv) is None:
+        return False
+    ctx.ok('R3', f'{F_IC}::InstanceConfig.quantified_resources::one entry per resource', 'comprehension over self.resources, None results dropped')
+    ctx.ok('R3', f'{F_IC}::InstanceConfig.quantified_resources::appended quantity', {'appended': 'Q'})
+    ctx.ok('R4', f'{F_IC}::InstanceConfig.quantified_resources::returned dicts are not changed in place', {'form': 'comprehension'})
+    shared = [(qd, p.result) for qd in quants for p in qd.paths if isinstance(p.result, cf.Obj) and p.result.prov != 'fresh']
+    why = f'{shared[0][0].c.name}.to_quantified_resource may return a retained dict ({shared[0][1].why})' if shared else None
+    _check_consumers(ctx, m, _IC_CLASSES, why)
+    return True
 
 
 def _check_caller_loop(ctx: Ctx, m: pf.Module, fn: pf.FuncDef, loop: ast.For, call: ast.Call, quants: List[Quantified]) -> None:
@@ -2141,9 +2187,10 @@ def run(ctx: Ctx) -> None:
                        'executed abstractly through the MRO (symbolic dicts with provenance fresh / memo / state and aliasing), its quantity expressions are typed in a '
                        'superadditive-monotone fragment and every in-place update of a retained dict is reported.')
     ctx.rule('R1', 'to_dict/from_dict round trip per class: keys read are written, type/version assertions hold, each field returns to its own key; from_dict o to_dict is the '
-             'identity on every attribute (no collection rebuilt from a summary, no defaulted parameter dropped)', 66)
+             'identity on every attribute (no collection rebuilt from a summary, no defaulted parameter dropped, no memo inside from_dict whose key omits a field the cached value is built from)', 66)
     ctx.rule('R2', 'resource dispatchers cover every class TYPE with that class\'s from_dict; TYPEs distinct; created resource classes covered', 56)
-    ctx.rule('R3', 'every billed quantity is a monotone superadditive function of (cpu, memory, worker fraction); worker fraction = 1024*cpu // (cores*1000)', 19)
+    ctx.rule('R3', 'every billed quantity is a monotone superadditive function of (cpu, memory, worker fraction); the worker fraction passed on (helpers seen through) is '
+             '1024*cpu / (cores*1000) rounded DOWN', 19)
     ctx.rule('R4', 'quantification is a pure function of (self fields, arguments): no dict retained between calls (memoised / stored state) is updated in place, no billed field is '
              'changed, memo keys cover what the value depends on; the whole worker is quantified by the same function at (cores*1000, instance_memory(), 0)', 20)
     ctx.rule('R5', 'every attribute the billing path reads is set by __init__ from constructor parameters (whose round trip R1 decides) or is a class constant', 27)
